@@ -51,7 +51,7 @@ var exportedOnly = map[string]bool{
 }
 
 // full walk (unexported fields too) for these small std value types
-var fullWalk = map[string]bool{"errors.errorString": true, "fmt.wrapError": true, "fmt.wrapErrors": true, "errors.joinError": true}
+var fullWalk = map[string]bool{"bytes.Buffer": true, "strings.Builder": true, "errors.errorString": true, "fmt.wrapError": true, "fmt.wrapErrors": true, "errors.joinError": true}
 
 var timeType = reflect.TypeOf(time.Time{})
 
